@@ -223,7 +223,7 @@ def gen_cases(ctx):
                                  c.get('inputs')))
             except Exception:
                 pass
-    for name, prog in ((n, p) for n, p in pm.CORPUS.items() if n != 'RetAwaitable'):   # its result is a live awaitable object
+    for name, prog in ((n, p) for n, p in pm.CORPUS.items() if n not in ('RetAwaitable', 'MissingOut')):   # its result is a live awaitable object
         programs.append((f'pm:{name}', prog, None))
     for name, prog in pg.PROC_CORPUS.items():
         programs.append((f'pg:{name}', prog, {'a': 1, 'b': (1, 2), 'ns': {'d0': {'deep': [0]}}}))
